@@ -630,6 +630,11 @@ def run(ctx) -> None:
     with ctx.as_rule(C06_R4="C03.R8"):
         r4_call(ctx, NF(ctx.program))
     r2_single_use_iterators(ctx, files=("hugr.hugr.base", "hugr.package", "hugr.ext", "hugr.envelope"), rule="C03.R7")
+    ctx.rule("C03.R9", "the signatures the order-port offset is computed from are the specification rows (LoadConstant has no value input, ..) (shared with C06.R1)", floor=30)
+    from .c06 import r1_signatures
+    from ..nf import NF as _NF
+    with ctx.as_rule(C06_R1="C03.R9"):
+        r1_signatures(ctx, _NF(ctx.program))
     from .. import lints
     lints.arm(ctx)
 
